@@ -25,6 +25,7 @@ TECHNIQUE += '; readers of the Love-number buffer (.love, .k, .h, .l) evaluated 
 EXPLANATION += ' R01.19 the accessors .love / .k / .h / .l hand back, for every requested type, the three numbers the driver stored for that type.'
 EXPLANATION += ' R01.20 the boundary-condition table of the default request (solve_for=None) and of "tidal" hold the published surface values (C02\'s table rule carried over by alias); R01.17 also: no negation of an unsigned counter.'
 
+EXPLANATION += ' R01.17 also: a typed integer variable used as an offset inside a subscript is at least as wide as the integers it is computed from (a narrower one addresses another element once the value exceeds its range).'
 def run(chk):
     repo = Repo(chk.repo)
     mo = repo.by_path('TidalPy/RadialSolver/derivatives/odes.pyx')
